@@ -254,6 +254,13 @@ impl Sweep {
                     let mx = likelysubtags::maximize(lang, *s, *rg);
                     let mn = likelysubtags::minimize(lang, *s, *rg);
                     n += 1;
+                    // the same questions again, straight away (see sweep_dir)
+                    if likelysubtags::maximize(lang, *s, *rg) != mx && bad.len() < 5 {
+                        bad.push((vec!["C06"], "sweep-maximize-second-call-differs".into(), json!({"triple": show_triple(&input)})));
+                    }
+                    if likelysubtags::minimize(lang, *s, *rg) != mn && bad.len() < 5 {
+                        bad.push((vec!["C08"], "sweep-minimize-second-call-differs".into(), json!({"triple": show_triple(&input)})));
+                    }
                     if !exp.0.iter().any(|p| fits(p, &input, &mx)) && bad.len() < 5 {
                         bad.push((vec!["C06"], "sweep-maximize-answer".into(), json!({"triple": show_triple(&input), "class": [lclass, key.0, key.1],
                             "allowed_patterns": exp.0.iter().map(|p| p.text.clone()).collect::<Vec<_>>(),
@@ -322,7 +329,13 @@ impl Sweep {
                 for (_, rg) in r_axis.iter() {
                     li.region = *rg;
                     let d = crate::dir::dir_name(li.character_direction());
+                    // the same question again, straight away: a function has one answer (a cache filled by the first call,
+                    // or left behind by an earlier identifier, would give the second call a different one)
+                    let d_again = crate::dir::dir_name(li.character_direction());
                     n += 1;
+                    if d_again != d && bad.len() < 5 {
+                        bad.push((vec!["C14"], "sweep-direction-second-call-differs".to_string(), json!({"id": li.to_string(), "first": d, "second": d_again, "likelysubtags": on})));
+                    }
                     if !exp.iter().any(|x| x == d) && bad.len() < 5 {
                         bad.push((vec!["C14"], "sweep-direction".to_string(), json!({"id": li.to_string(), "class": [lclass, scls], "likelysubtags": on,
                             "allowed": exp, "observed": d})));
